@@ -161,7 +161,34 @@ func c08Run(w *W) {
 				}
 			}
 		}
-		if err := mangos.Device(x.s, x.s); err != nil {
+		if w.Choose(simrt.SShape, 2) == 0 {
+			// a forwarder of the application's own (a filter, a logger): it
+			// re-sends each received message as a message it builds itself,
+			// with the header it received - for a raw BUS socket the header
+			// names the connection the message came from, and that is what
+			// keeps it from going back there
+			w.SetShape("forwarder", "rebuilds-messages")
+			w.Probe("raw-bus-forwarder-rebuilds-messages")
+			xs := x.s
+			w.Go("forwarder X", func() {
+				for {
+					m, err := xs.RecvMsg()
+					if err != nil {
+						if err == mangos.ErrClosed {
+							return
+						}
+						continue
+					}
+					n := mangos.NewMessage(len(m.Body))
+					n.Header = append(n.Header, m.Header...)
+					n.Body = append(n.Body, m.Body...)
+					m.Free()
+					if xs.SendMsg(n) != nil {
+						n.Free()
+					}
+				}
+			})
+		} else if err := mangos.Device(x.s, x.s); err != nil {
 			w.Failf("HARNESS/device", "%v", err)
 		}
 	case "star":
